@@ -91,8 +91,12 @@ func classifyLoop(c *Ctx, bp *boundsProver, f *ssa.Function, l *Loop) (string, s
 				return "bounded counter", why
 			}
 			// (e) consumer loop: exit on empty, one removal per trip
-			if why, ok := consumerLoop(l, cb, bo); ok {
-				return "consumer", why
+			if nc, _ := normalizeCond(bo, true); nc != nil {
+				if nbo, isB := nc.(*ssa.BinOp); isB {
+					if why, ok := consumerLoop(l, cb, nbo); ok {
+						return "consumer", why
+					}
+				}
 			}
 			// (d) driver: x != nil where x comes from a progress call
 			if isNilConst(bo.Y) {
